@@ -61,7 +61,7 @@ CHECK_DEADLOCK FALSE
 def model_check(ctx, cases):
     """C17 on the construction machine: the hand-written seed graphs, a seeded sample of the generated
     graphs (the same graphs are then replayed on the real analyzer), and the negative control."""
-    cfg = "MCUnused_buildq.cfg" if ctx.quick else "MCUnused_build.cfg"
+    cfg = "MCUnused_buildq.cfg" if (ctx.quick or ug.smoke()) else "MCUnused_build.cfg"
     r = vlib.run_tlc(ctx, "MCUnused", cfg, workers=4 if ctx.quick else 8, timeout=6000, coverage=not ctx.quick)
     vlib.tlc_require_ok(r, "C17 invariants on the construction machine")
     if r.distinct < 500:
@@ -536,7 +536,7 @@ def run(ctx):
         "exhaustive": False,
         "states": mc.distinct + (mc2.distinct if mc2 else 0),
         "transitions": mc.generated + (mc2.generated if mc2 else 0),
-        "tlc": {"construction": {"config": "MCUnused_buildq.cfg" if ctx.quick else "MCUnused_build.cfg", "states": mc.distinct, "generated": mc.generated,
+        "tlc": {"construction": {"config": "MCUnused_buildq.cfg" if (ctx.quick or ug.smoke()) else "MCUnused_build.cfg", "states": mc.distinct, "generated": mc.generated,
                                  "wall_s": round(mc.wall, 1), "properties": ["Confluence", "VariantRule", "Monotone(action)"]},
                 "construction_on_generated_graphs": {"graphs": len(seeds), "states": mc2.distinct if mc2 else 0, "generated": mc2.generated if mc2 else 0},
                 "negative_control": {"config": "MCUnused_eager.cfg", "violated": neg.violated},
